@@ -51,15 +51,32 @@ def _replay_obj(f):
                 replay=dict(ep=f["entry"], input_b64=f["input_b64"], ctx=f.get("ctx"), desc=f.get("desc")))
 
 
+# relative cost hints (measured ms per entry point in the quick tier); unknown entry points get the default
+_WEIGHT = {"pe.PresentationDefinition": 6000, "revocation.StatusList2021": 9800, "discovery.Register": 7500, "pe.PresentationSubmission": 5900,
+           "v2.TransactionSet": 3800, "v2.TransactionList": 3800, "iam.JAR": 2900, "didjwk.Resolve": 1700, "verifier.VerifyVP.jwt": 1500,
+           "revocation.expand": 1800, "didkey.Resolve": 1500}
+_NODE = ("verifier.", "discovery.", "iam.", "revocation.StatusList2021", "v2.")
+
+
 def _shard(cases, n):
-    """Shards keep all cases of an entry point together when possible (node start / DAG per shard), balanced by count."""
-    by_ep = {}
+    """Greedy balancing. Entry points that need a whole node / a DAG stay together (one start per shard); the cases of the pure
+    entry points may be spread. Cases that are expected to hit the deadline get a shard of their own weight."""
+    groups = {}
     for c in cases:
-        by_ep.setdefault(c["ep"], []).append(c)
-    shards = [[] for _ in range(n)]
-    for ep in sorted(by_ep, key=lambda e: -len(by_ep[e])):
-        min(shards, key=len).extend(by_ep[ep])
-    return [s for s in shards if s]
+        key = c["ep"] if c["ep"].startswith(_NODE) else c["ep"] + "|" + c["op"]
+        groups.setdefault(key, []).append(c)
+    def weight(key, cs):
+        ep = cs[0]["ep"]
+        w = _WEIGHT.get(ep, 800) * len(cs) / 40.0
+        if ep == "pe.PresentationDefinition" and cs[0]["op"] == "unusual":
+            w += 12000   # the catastrophic regular expressions run into the 5 s deadline
+        return w
+    shards = [[0.0, []] for _ in range(n)]
+    for key in sorted(groups, key=lambda k: -weight(k, groups[k])):
+        s = min(shards, key=lambda x: x[0])
+        s[0] += weight(key, groups[key])
+        s[1].extend(groups[key])
+    return [s[1] for s in shards if s[1]]
 
 
 def _run_cases(binary, cases, seed, level, random_n, max_per_case, shards=8, timeout=900):
@@ -135,8 +152,8 @@ def run(prop, tier, seed, replay=None):
     mark("tlc")
     # 3. the real code
     level = 0 if quick else 1
-    random_n = 150 if quick else 4000
-    results = _run_cases(binary, cases, seed, level, random_n, 0 if not quick else 400, shards=8, timeout=240 if quick else 840)
+    random_n = 150 if quick else 8000
+    results = _run_cases(binary, cases, seed, level, random_n, 0 if not quick else 400, shards=10, timeout=240 if quick else 840)
     if len(results) != len(cases):
         raise Inconclusive("driver returned %d results for %d cases" % (len(results), len(cases)))
 
@@ -174,16 +191,11 @@ def run(prop, tier, seed, replay=None):
     clean_ok = []
     for tr in clean:
         clean_ok.append([e for e in tr if e["id"] not in changed_ids])
-    acc, rej = vlib.validate_traces("TraceRobust", "Robust.trace.cfg", clean_ok, timeout=900, batch=4000)
-    for x in rej[:5]:
-        if x["kind"].startswith("invariant:"):
-            rep.violation(dict(kind="trace-" + x["kind"], entry=(x.get("event") or {}).get("ep", "?"), site="trace"),
-                          dict(property=prop, rejected=x, trace=clean_ok[x["index"]][:50]))
-        else:
-            rep.notes.append("DRIFT: trace %d rejected at event %s (%s)" % (x["index"], json.dumps(x["event"])[:200], x["kind"]))
-    if len(rej) > max(3, len(clean_ok) // 10):
-        rep.inconclusive.append("%d of %d recorded traces are not behaviours of Robust.tla" % (len(rej), len(clean_ok)))
-
+    nchunks = 6
+    chunks = [clean_ok[i::nchunks] for i in range(nchunks)]
+    chunks = [c for c in chunks if c]
+    pool = ThreadPoolExecutor(max_workers=8)
+    futs = [pool.submit(vlib.validate_traces, "TraceRobust", "Robust.trace.cfg", c, 900, 4000) for c in chunks]
     expected = {"panic": "invariant:Totality", "hang": "invariant:Totality", "state-changed": "invariant:RejectUnchanged"}
     reps = []
     for k in sorted(by_sig):
@@ -195,15 +207,37 @@ def run(prop, tier, seed, replay=None):
         k, f, evs = item
         a, rj = vlib.validate_traces("TraceRobust", "Robust.trace.cfg", [evs], timeout=300)
         return k, f, a, rj
+    # one representative per kind first, then further signatures up to 8 TLC runs (the check is the same for every lost call)
+    seen_kind, first, rest = set(), [], []
+    for it in reps:
+        (first if it[1]["kind"] not in seen_kind else rest).append(it)
+        seen_kind.add(it[1]["kind"])
+    reps = (first + rest)[:8]
+    rep_futs = [pool.submit(check, it) for it in reps]
+    acc, rej = 0, []
+    for ci, fu in enumerate(futs):
+        a, rj = fu.result()
+        acc += a
+        for x in rj:
+            x["index"] = x["index"] * nchunks + ci
+        rej += rj
+    for x in rej[:5]:
+        if x["kind"].startswith("invariant:"):
+            rep.violation(dict(kind="trace-" + x["kind"], entry=(x.get("event") or {}).get("ep", "?"), site="trace"),
+                          dict(property=prop, rejected=x, trace=clean_ok[x["index"]][:50]))
+        else:
+            rep.notes.append("DRIFT: trace %d rejected at event %s (%s)" % (x["index"], json.dumps(x["event"])[:200], x["kind"]))
+    if len(rej) > max(3, len(clean_ok) // 10):
+        rep.inconclusive.append("%d of %d recorded traces are not behaviours of Robust.tla" % (len(rej), len(clean_ok)))
+
     confirmed = 0
-    if reps:
-        with ThreadPoolExecutor(max_workers=8) as ex:
-            for k, f, a, rj in ex.map(check, reps):
-                want = expected.get(f["kind"])
-                if a == 0 and rj and rj[0]["kind"] == want:
-                    confirmed += 1
-                else:
-                    rep.inconclusive.append("binding: the trace of finding %s was not rejected with %s (got %s)" % (k, want, rj[:1] or "accepted"))
+    for k, f, a, rj in [fu.result() for fu in rep_futs]:
+        want = expected.get(f["kind"])
+        if a == 0 and rj and rj[0]["kind"] == want:
+            confirmed += 1
+        else:
+            rep.inconclusive.append("binding: the trace of finding %s was not rejected with %s (got %s)" % (k, want, rj[:1] or "accepted"))
+    pool.shutdown()
 
     mark("trace_validation")
     samples = []
